@@ -147,6 +147,9 @@ class UMNDirHandler(DirHandler):
         """Processes a link file.  If capfilepath is set, it should
         be the equivolent of the Path= in a .names file."""
         linkentries = []
+        if not self.vfs.isfile(filename):
+            # Nothing to read, and opening a FIFO would block forever.
+            raise FileNotFoundError(filename)
         with self.vfs.open(filename, "r", errors="surrogateescape") as fd:
             while True:
                 nextstep, entry = self.getLinkItem(fd, capfilepath)
